@@ -58,7 +58,7 @@ Loop == Ready =>
            LET res == Randrange(s, s + width, Two(n, r1, r2))
            IN res.ok <=> (tab[r1] >= width /\ tab[r2] < width)
     /\ ~Randrange(s, s + width, <<>>).ok
-    /\ ~Randrange(s, s + width, << [req |-> n + 1, got |-> Zeros(n + 1)] >>).ok
+    /\ (n + 1) % n # 0 => ~Randrange(s, s + width, << [req |-> n + 1, got |-> Zeros(n + 1)] >>).ok      \* not a whole number of draws
 (* Compositional argument for EVERY width below 2^16 (too many to enumerate    *)
 (* draw by draw): MaskLemma - for each number of bytes n and each top-byte     *)
 (* mask 2^k - 1, masking the first byte of an n-byte draw r gives              *)
